@@ -77,6 +77,17 @@ type Scenario struct {
 	ScopeMw    bool   `json:"scopemw"`
 	ProvClosed bool   `json:"provclosed"`
 	Batch      int    `json:"batch"`
+	Outer      bool   `json:"outer"` // the incoming request context already carries an application-level scope
+}
+
+// outerCtx is the context every incoming request carries (context.Background unless the scenario says the
+// server's base context belongs to an application-level scope of the same provider)
+var outerCtx = context.Background()
+
+func newReq(rq int) *http.Request {
+	req := httptest.NewRequest("GET", "/", nil).WithContext(outerCtx)
+	req.Header.Set("X-Rq", strconv.Itoa(rq))
+	return req
 }
 
 func scopeID(s godi.Scope) string {
@@ -214,8 +225,7 @@ func buildHTTP(sc *Scenario, p godi.Provider, chi bool) *app {
 		}
 	}
 	return &app{serve: func(rq int) (status int, panicked bool) {
-		req := httptest.NewRequest("GET", "/", nil)
-		req.Header.Set("X-Rq", strconv.Itoa(rq))
+		req := newReq(rq)
 		rec := httptest.NewRecorder()
 		func() {
 			defer func() {
@@ -279,8 +289,7 @@ func buildGin(sc *Scenario, p godi.Provider) *app {
 		})
 	}
 	return &app{serve: func(rq int) (int, bool) {
-		req := httptest.NewRequest("GET", "/", nil)
-		req.Header.Set("X-Rq", strconv.Itoa(rq))
+		req := newReq(rq)
 		rec := httptest.NewRecorder()
 		g.ServeHTTP(rec, req)
 		_, pk := panics.Load(rq)
@@ -343,8 +352,7 @@ func buildEcho(sc *Scenario, p godi.Provider) *app {
 		})
 	}
 	return &app{serve: func(rq int) (int, bool) {
-		req := httptest.NewRequest("GET", "/", nil)
-		req.Header.Set("X-Rq", strconv.Itoa(rq))
+		req := newReq(rq)
 		rec := httptest.NewRecorder()
 		e.ServeHTTP(rec, req)
 		_, pk := panics.Load(rq)
@@ -354,6 +362,10 @@ func buildEcho(sc *Scenario, p godi.Provider) *app {
 
 func buildFiber(sc *Scenario, p godi.Provider) *app {
 	a := fiberpkg.New(fiberpkg.Config{DisableStartupMessage: true})
+	if sc.Outer {
+		octx := outerCtx
+		a.Use(func(c *fiberpkg.Ctx) error { c.SetUserContext(octx); return c.Next() })
+	}
 	var panics sync.Map
 	frq := func(c *fiberpkg.Ctx) int { n, _ := strconv.Atoi(c.Get("X-Rq")); return n }
 	a.Use(func(c *fiberpkg.Ctx) (err error) {
@@ -411,8 +423,7 @@ func buildFiber(sc *Scenario, p godi.Provider) *app {
 		})
 	}
 	return &app{serve: func(rq int) (int, bool) {
-		req := httptest.NewRequest("GET", "/", nil)
-		req.Header.Set("X-Rq", strconv.Itoa(rq))
+		req := newReq(rq)
 		resp, err := a.Test(req, -1)
 		status := 0
 		if err == nil {
@@ -483,6 +494,16 @@ func runScenario(sc *Scenario, raw []byte, run int) {
 	}
 	if sc.ProvClosed {
 		p.Close()
+	}
+	outerCtx = context.Background()
+	if sc.Outer {
+		as, err := p.CreateScope(context.Background())
+		if err != nil {
+			emit(M{"ev": "harness_error", "msg": err.Error()})
+			return
+		}
+		outerCtx = as.Context()
+		emit(M{"ev": "outer", "scope": as.ID()})
 	}
 	var a *app
 	switch sc.Fw {
